@@ -176,9 +176,82 @@ def _interface(std, aw, dw, i):
     return itf
 
 
+class _Recorder:
+    """stands in for an interconnect class while SoCBusHandler.finalize runs: notes the (decoder,
+    slave interface) pairs the handler hands to the REAL class, which it then instantiates"""
+    def __init__(self, cls, log):
+        self.cls, self.log = cls, log
+
+    def __call__(self, *args, **kwargs):
+        if "slaves" in kwargs:
+            self.log.append(list(kwargs["slaves"]))
+        elif len(args) >= 2 and isinstance(args[1], (list, tuple)):
+            self.log.append(list(args[1]))
+        return self.cls(*args, **kwargs)
+
+
+_IC_CLASSES = (("wishbone", "InterconnectShared"), ("wishbone", "Crossbar"),
+               ("axi", "AXILiteInterconnectShared"), ("axi", "AXILiteCrossbar"),
+               ("axi", "AXIInterconnectShared"), ("axi", "AXICrossbar"))
+
+
+def _finalize_recorded(bus):
+    """bus.finalize() with the interconnect classes wrapped.  -> (outcome, list of slaves lists)"""
+    lx = litex()
+    log, saved = [], []
+    for mod, name in _IC_CLASSES:
+        m = getattr(lx.soc, mod)             # the module objects soc.py itself looks the classes up in
+        cls = getattr(m, name)
+        saved.append((m, name, cls))
+        setattr(m, name, _Recorder(cls, log))
+    try:
+        fin, _ = _call(bus.finalize)
+    finally:
+        for m, name, cls in saved:
+            setattr(m, name, cls)
+    return fin, log
+
+
+FDEC_PROBES = (0, -1)     # first and last word of each unit
+
+
+def _final_decoders(bus, slaves, aw, dw, unit):
+    """the decoders the handler handed to the interconnect, evaluated with the reference Evaluator
+    at the first and last word of each of the 16 units.  -> list of {n, err, sel, k}"""
+    lx = litex()
+    names = {id(itf): n for n, itf in bus.slaves.items()}
+    wbytes = dw // 8
+    a = lx.Signal(aw - int(math.log2(wbytes)))
+    wpu = unit // wbytes
+    K = len(FDEC_PROBES)
+    out = []
+    for ent in slaves:
+        try:
+            fn, itf = ent
+        except Exception:
+            out.append({"n": "?", "k": K, "err": True, "sel": []})
+            continue
+        o, expr = _call(lambda: fn(a))
+        rec = {"n": names.get(id(itf), "?"), "k": K, "err": o != "ok", "sel": []}
+        if o == "ok":
+            ev = lx.Evaluator({}, {})
+            for u in range(AS):
+                for j, k in enumerate(FDEC_PROBES):
+                    word = u * wpu + (k if k >= 0 else wpu + k)
+                    if isinstance(expr, (bool, int)):
+                        v = int(expr)
+                    else:
+                        ev.signal_values[a] = word
+                        v = ev.eval(expr)
+                    if v & 1:
+                        rec["sel"].append(u * K + j)
+        out.append(rec)
+    return out
+
+
 def bus_cfg_record(cfg):
-    cid, std, aw, dw, nm, ioc, ic = cfg
-    return {"id": cid, "std": std, "aw": aw, "dw": dw, "nm": nm, "ioc": bool(ioc), "ic": ic}
+    cid, std, aw, dw, nm, ioc, ic, rsv = cfg
+    return {"id": cid, "std": std, "aw": aw, "dw": dw, "nm": nm, "ioc": bool(ioc), "ic": ic, "rsv": rsv}
 
 
 def bus_call_record(c):
@@ -196,16 +269,43 @@ def bus_visit(cfg, prefix, want_dec=True):
     cfg, then finalize it.  -> node record of the last call (or of the configuration if empty)"""
     lx = litex()
     soc = lx.soc
-    cid, std, aw, dw, nmasters, ioc, ic = cfg
+    cid, std, aw, dw, nmasters, ioc, ic, rsv = cfg
     unit = 1 << (aw - 4)
     _reset_tracer()
-    bus = soc.SoCBusHandler(standard=std, data_width=dw, address_width=aw, interconnect=ic)
+    prov = {}            # name -> provenance of the creating call
+    out = "ok"
+    nrsv = min(rsv, len(prefix))
+    if nrsv:
+        # the first rsv calls are delivered through the constructor (reserved_regions)
+        reserved = {}
+        for pos, c in enumerate(prefix[:nrsv], 1):
+            op, nm, o, s, cc, lk, sl, dc = c
+            if sl or nm in reserved or op not in ("add", "io"):
+                raise ValueError("call %r cannot be a reserved region" % (c,))
+            if op == "io":
+                reserved[nm] = soc.SoCIORegion(origin=o * unit, size=s * unit, cached=False)
+                prov[nm] = {"au": False, "ioc": False, "k": pos}
+            else:
+                reserved[nm] = soc.SoCRegion(origin=None if o == AUTO else o * unit, size=s * unit, cached=bool(cc),
+                                             linker=bool(lk), decode=bool(dc))
+                prov[nm] = {"au": o == AUTO, "ioc": bool(ioc) and o != AUTO, "k": pos}
+        out, bus = _call(lambda: soc.SoCBusHandler(standard=std, data_width=dw, address_width=aw, interconnect=ic,
+                                                   reserved_regions=reserved))
+        if out != "ok":
+            if len(prefix) > nrsv:
+                return {"broken_prefix": True, "pos": nrsv, "out": out}
+            # no handler exists: nothing was granted
+            return {"f": "bus", "d": len(prefix), "out": out, "regs": [], "ios": [], "ms": [], "sls": [],
+                    "call": bus_call_record(prefix[-1]), "fin": "none", "ic": "none", "fds": [], "rsv": nrsv,
+                    "_decs": {}}
+    else:
+        bus = soc.SoCBusHandler(standard=std, data_width=dw, address_width=aw, interconnect=ic)
     bus.io_regions_check = bool(ioc)
     for m in range(nmasters):
         bus.add_master("cpu%d" % m, _interface(std, aw, dw, ("m", m)))
-    prov = {}            # name -> provenance of the creating call
-    out = "ok"
     for pos, c in enumerate(prefix, 1):
+        if pos <= nrsv:
+            continue
         op, nm, o, s, cc, lk, sl, dc = c
         if op == "io":
             region = soc.SoCIORegion(origin=o * unit, size=s * unit, cached=False)
@@ -237,15 +337,23 @@ def bus_visit(cfg, prefix, want_dec=True):
     regs, deckeys, decs = [], [], {}
     for name, r in bus.regions.items():
         p = prov.get(name, {"au": False, "ioc": False, "k": 0})
-        o, f1 = _units(r.origin, unit)
-        e, f2 = _units(r.origin + r.size, unit, up=True)
+        if not isinstance(r.origin, int):
+            # a region without an address was granted: recorded off the grid at an impossible place
+            o, f1, e, f2 = -1000, True, -1000 + _units(r.size, unit, up=True)[0], True
+        else:
+            o, f1 = _units(r.origin, unit)
+            e, f2 = _units(r.origin + r.size, unit, up=True)
         p2, f3 = _units(r.size_pow2, unit, up=True)
         rec = {"n": name, "o": o, "s": e - o, "p2": p2, "fr": f1 or f2, "c": bool(r.cached), "lk": bool(r.linker),
                "dc": bool(r.decode), "md": r.mode, "au": p["au"], "ioc": p["ioc"], "k": p["k"],
                "sl": name in bus.slaves}
-        if want_dec:
+        if want_dec and isinstance(r.origin, int):
             key, views = decoder_facts(r, aw, dw, unit)
             decs[key] = views
+            rec["dec"] = key
+        elif want_dec:
+            key = (aw, dw, "no-origin", r.size, r.size_pow2, r.decode)
+            decs[key] = [{"k": 1, "err": True, "sel": [], "exc": "no origin"}]
             rec["dec"] = key
         regs.append(rec)
     ios = []
@@ -258,20 +366,22 @@ def bus_visit(cfg, prefix, want_dec=True):
     node = {"f": "bus", "d": len(prefix), "out": out, "regs": regs, "ios": ios,
             "ms": list(bus.masters.keys()), "sls": list(bus.slaves.keys()),
             "call": bus_call_record(prefix[-1]) if prefix else bus_call_record(("cfg", "", 0, 0, 0, 0, 0, 0)),
-            "fin": "none", "ic": "none", "_decs": decs}
+            "fin": "none", "ic": "none", "fds": [], "rsv": nrsv, "_decs": decs}
     if out == "ok":
-        fin, _ = _call(bus.finalize)
+        fin, log = _finalize_recorded(bus)
         node["fin"] = fin
         if fin == "ok":
             icn = type(getattr(bus, "_interconnect", None)).__name__
             node["ic"] = "none" if getattr(bus, "_interconnect", None) is None else _IC.get(icn, icn)
+            if log:
+                node["fds"] = _final_decoders(bus, log[-1], aw, dw, unit)
     return node
 
 
 # ======================================================================================= loc
 def loc_cfg_record(cfg):
-    cid, kind, nl, p1, p2 = cfg
-    return {"id": cid, "kind": kind, "nl": nl, "p1": p1, "p2": p2}
+    cid, kind, nl, p1, p2, rsv = cfg
+    return {"id": cid, "kind": kind, "nl": nl, "p1": p1, "p2": p2, "rsv": rsv}
 
 
 def loc_call_record(c):
@@ -281,17 +391,39 @@ def loc_call_record(c):
 
 def loc_visit(cfg, prefix):
     soc = litex().soc
-    cid, kind, nl, p1, p2 = cfg
+    cid, kind, nl, p1, p2, rsv = cfg
     _reset_tracer()
+    out = "ok"
+    prov = {}           # name -> provenance of the call that created the entry
+    nrsv = min(rsv, len(prefix))
     if kind == "csr":
-        h = soc.SoCCSRHandler(data_width=32, address_width=p1, alignment=32, paging=p2)
+        if nrsv:
+            # the first rsv requests are delivered through the constructor (reserved_csrs)
+            reserved = {}
+            for pos, c in enumerate(prefix[:nrsv], 1):
+                op, nm, n, re_ = c
+                if re_ or nm in reserved:
+                    raise ValueError("call %r cannot be a reserved location" % (c,))
+                reserved[nm] = None if n == LAUTO else n
+                prov[nm] = {"au": n == LAUTO, "k": pos}
+            out, h = _call(lambda: soc.SoCCSRHandler(data_width=32, address_width=p1, alignment=32, paging=p2,
+                                                     reserved_csrs=reserved))
+            if out != "ok":
+                if len(prefix) > nrsv:
+                    return {"broken_prefix": True, "pos": nrsv, "out": out}
+                return {"f": "loc", "d": len(prefix), "out": out, "fin": "n/a", "locs": [], "nlobj": -1, "rsv": nrsv,
+                        "call": loc_call_record(prefix[-1])}
+        else:
+            h = soc.SoCCSRHandler(data_width=32, address_width=p1, alignment=32, paging=p2)
     else:
+        if rsv:
+            raise ValueError("reserved locations are only modelled for the CSR handler")
         h = soc.SoCIRQHandler(n_irqs=p1)
         if kind == "irq":
             h.enable()
-    out = "ok"
-    prov = {}           # name -> provenance of the call that created the entry
     for pos, c in enumerate(prefix, 1):
+        if pos <= nrsv:
+            continue
         op, nm, n, re_ = c
         had = nm in h.locs
         out, _ = _call(lambda: h.add(nm, n=None if n == LAUTO else n, use_loc_if_exists=bool(re_)))
@@ -306,7 +438,7 @@ def loc_visit(cfg, prefix):
         p = prov.get(name, {"au": False, "k": 0})
         locs.append({"n": name, "au": p["au"], "k": p["k"],
                      "v": v if isinstance(v, int) and not isinstance(v, bool) and abs(v) < 2**30 else -2**30})
-    return {"f": "loc", "d": len(prefix), "out": out, "fin": "n/a", "locs": locs, "nlobj": h.n_locs,
+    return {"f": "loc", "d": len(prefix), "out": out, "fin": "n/a", "locs": locs, "nlobj": h.n_locs, "rsv": nrsv,
             "call": loc_call_record(prefix[-1]) if prefix else loc_call_record(("cfg", "", 0, 0))}
 
 
